@@ -891,6 +891,34 @@ class Explorer:
             self.stats.q_unsat += 1
         return r, None
 
+    def _pinned_model_search(self, neg, rounds=None):
+        import random as _rnd
+        rounds = int(os.environ.get('SYMX_PIN_ROUNDS', '48')) if rounds is None else rounds
+        reals = [v for v in self.names.values() if z3.is_real(v) and z3.is_const(v)]
+        if not reals:
+            return 'unknown', None
+        rnd = _rnd.Random(1234 + len(self.pc))
+        pool = [0, 1, 2, 3, -1, Fraction(1, 2), Fraction(3, 2), 5, -2, Fraction(1, 4), 7, Fraction(5, 2), 4, -3]
+        t_end = time.time() + float(os.environ.get('SYMX_PIN_BUDGET_S', '60'))
+        for k in range(rounds):
+            if time.time() > t_end:
+                break
+            keep = 0.0 if k < 6 else (0.15 if k < 24 else 0.35)
+            s2 = z3.Solver()
+            s2.set('timeout', 2500)
+            s2.add(*self.pc)
+            s2.add(neg)
+            for v in reals:
+                if rnd.random() >= keep:
+                    q = rnd.choice(pool[:6] if k < 3 else pool)
+                    s2.add(v == z3.RealVal(str(q)))
+            t0 = time.time()
+            r = str(s2.check())
+            self.stats.solver_s += time.time() - t0
+            if r == 'sat':
+                return 'sat', s2
+        return 'unknown', None
+
     def _decided(self, t):
         """truth value of a boolean term if it follows propositionally from literals decided on this path, else None"""
         k = t.get_id()
@@ -1334,6 +1362,15 @@ class Explorer:
             self.stats.cex.append(cex)
             self.path_cex.append(cex)
             return False
+        if r == 'unknown' and not soft and not getattr(self, 'fp_mode', False) and not getattr(self, 'str_mode', False):
+            # neither a proof nor a model: look for a model with most inputs pinned to simple values (still the solver's sat verdict on the
+            # path condition and the negated obligation, only with extra equalities; a model found this way is replayed like any other)
+            r2, s2 = self._pinned_model_search(neg)
+            if r2 == 'sat':
+                r, msolver = 'sat', s2
+                self.stats.q_unknown -= 1
+                self.stats.q_sat += 1
+                info = ((info + ' ') if isinstance(info, str) else '') + '[model found with inputs pinned]'
         if r == 'unknown':
             if soft:
                 # floating-point obligation undecided within the budget: inconclusive-FP (recorded, not a verdict)
@@ -1347,12 +1384,48 @@ class Explorer:
         for n, v in self.names.items():
             val = m.eval(v, model_completion=True)
             model[n] = _model_value(val)
-        ufs = {}
+        # values of the uninterpreted environment functions at the points where the run applied them (for the replay in doubles)
+        table = []
+        try:
+            for fname, calls in self.uf_log.items():
+                f = None
+                for key, fd in self.memo.items():
+                    if isinstance(key, tuple) and key[0] == fname and hasattr(fd, 'arity'):
+                        f = fd
+                        break
+                if f is None:
+                    continue
+                seen_ = set()
+                for ts in calls:
+                    if len(ts) != f.arity() or len(table) >= 600:
+                        continue
+                    kk = tuple(t.get_id() for t in ts)
+                    if kk in seen_:
+                        continue
+                    seen_.add(kk)
+                    av = [_approx_float(m.eval(t, model_completion=True)) for t in ts]
+                    vv = _approx_float(m.eval(f(*ts), model_completion=True))
+                    if vv is not None and all(a is not None for a in av):
+                        table.append([fname, av, vv])
+        except Exception:
+            table = []
+        if table:
+            model['__uf__'] = table
         cex = {'label': label, 'model': model, 'decisions': [list(d) for d in self.decisions[:self.pos]],
                'info': info, 'pc_size': len(self.pc)}
         self.stats.cex.append(cex)
         self.path_cex.append(cex)
         return False
+
+
+def _approx_float(val):
+    if z3.is_int_value(val):
+        return float(val.as_long())
+    if z3.is_rational_value(val):
+        return float(val.as_fraction())
+    if z3.is_algebraic_value(val):
+        return float(val.approx(30).as_fraction())
+    return None
 
 
 class _ValModel:
@@ -1530,9 +1603,23 @@ class FloatCtx:
             a[idx] = self.real('%s_%s' % (name, '_'.join(map(str, idx))), **kw)
         return a
 
+    def uf_lookup(self, name, *args):
+        """value the counterexample model gives to the environment function at this point, None if it was not applied there"""
+        tab = self.model.get('__uf__') if isinstance(self.model, dict) else None
+        if tab:
+            fa = [float(a) for a in args]
+            for (n_, av, vv) in tab:
+                if n_ == name and len(av) == len(fa) and all(abs(x - y) <= 1e-7 * max(1.0, abs(x), abs(y)) for x, y in zip(av, fa)):
+                    return vv
+        return None
+
     def uf(self, name, *args, nonneg=False, pos=False):
         """generic concrete function standing for an environment stub: smooth, positive, injective-ish"""
         import zlib
+        vv = self.uf_lookup(name, *args)
+        if vv is not None:
+            self.uf_log.setdefault(name, []).append([float(a) for a in args])
+            return vv
         h = zlib.crc32(name.encode()) % 9973
         s = 0.0
         for k, a in enumerate(args):
